@@ -339,7 +339,76 @@ def gen_value(rng):
     return v, nfor, None
 
 
-CASES = {"value": case_value}
+def case_history(mon, seedval):
+    """One Angle object carried through a random sequence of mutators with
+    the splits and printed forms read in between: after every step the
+    object's views have to be those of its *current* value (a view kept from
+    before a mutator - a stored split, a stored string - shows here)."""
+    from pymeeus.Angle import Angle
+    rng = random.Random(seedval)
+    v0 = rng.choice((-10.5, -359.999999999, 359.5, -0.25, 0.0,
+                     rng.uniform(-360, 360), rng.uniform(-1, 1)))
+    a = Angle(v0)
+    mon.evals += 1
+    steps = []
+    for _ in range(rng.randrange(4, 14)):
+        op = rng.choice(("dms_tuple", "ra_tuple", "dms_str", "ra_str",
+                         "to_positive", "set", "set_radians", "set_ra",
+                         "iadd", "isub", "imul", "idiv", "set_tuple",
+                         "dms_tuple", "to_positive"))
+        x = rng.choice((rng.uniform(-400, 400), -30.0, 180.0, -0.5, 1e-7))
+        steps.append([op, x])
+        try:
+            if op in ("dms_tuple", "ra_tuple"):
+                getattr(a, op)()
+            elif op == "dms_str":
+                a.dms_str(rng.random() < 0.5, rng.randrange(-1, 6))
+            elif op == "ra_str":
+                a.ra_str(rng.random() < 0.5, rng.randrange(-1, 6))
+            elif op == "to_positive":
+                a.to_positive()
+            elif op == "set":
+                a.set(x)
+            elif op == "set_radians":
+                a.set_radians(math.radians(x))
+            elif op == "set_ra":
+                a.set_ra(x / 15.0)
+            elif op == "set_tuple":
+                a.set((int(abs(x)), 30, 15.5, -1.0 if x < 0 else 1.0))
+            elif op == "iadd":
+                a += x
+            elif op == "isub":
+                a -= Angle(x)
+            elif op == "imul":
+                a *= rng.choice((-1, 2, 0.5, -3.25))
+            elif op == "idiv":
+                a /= rng.choice((-1, 2, 0.5, -3.25))
+            v = a()
+            if v < 0:
+                mon.cls("history.negative-value", ("h", seedval, len(steps)))
+            mon.cls("history.after-" + op, ("h", seedval, len(steps)))
+            t1, t2 = a.dms_tuple(), a.ra_tuple()
+            fresh = Angle(v)
+            nd = rng.randrange(-1, 6)
+            fancy = rng.random() < 0.5
+            same = (t1 == fresh.dms_tuple() and t2 == fresh.ra_tuple()
+                    and a.dms_str(fancy, nd) == fresh.dms_str(fancy, nd)
+                    and a.ra_str(fancy, nd) == fresh.ra_str(fancy, nd))
+            mon.check("history.views-follow-value", same,
+                      lambda: {"start": v0, "steps": steps, "value": v,
+                               "dms_tuple": list(t1),
+                               "fresh dms_tuple": list(fresh.dms_tuple()),
+                               "ra_tuple": list(t2),
+                               "fresh ra_tuple": list(fresh.ra_tuple())})
+            check_tuple(mon, "dms_tuple", v, t1, False)
+            check_tuple(mon, "ra_tuple", v, t2, True)
+        except Exception as e:
+            mon.dev("history.views-follow-value",
+                    {"start": v0, "steps": steps, "raised": repr(e)})
+            return
+
+
+CASES = {"value": case_value, "history": case_history}
 
 
 def directed(mon, all_nd):
@@ -372,3 +441,7 @@ def run(mon, spec):
             nd = sorted(nd)
         mon.begin("value", [v, nd, raw])
         case_value(mon, v, nd, raw)
+    for _ in range(max(200, spec["n"] // 50)):
+        sv = rng.randrange(1 << 30)
+        mon.begin("history", [sv])
+        case_history(mon, sv)
